@@ -6,7 +6,7 @@
 From SV Require Import Base.Prelude Model.Canon Model.Lineage Model.C02Run Spec.CanonSpec Spec.LineageSpec
   Proof.CanonProof Proof.CanonEquiv Proof.CanonInj Proof.LineageEquiv Proof.LineageCache Proof.LineageHash
   Proof.LineageRegister Proof.LineageHistory Proof.LineageRefute Proof.LineageStore Proof.LineageFuzzy
-  Proof.LineageKeys Proof.LineageKeys2 Proof.LineagePinned.
+  Proof.LineageKeys Proof.LineageKeys2 Proof.LineagePinned Proof.LineageFresh.
 From Coq Require Import Sorting.Permutation.
 
 (* json text -> tree is a function: the serialisation is injective *)
@@ -175,3 +175,21 @@ Theorem C02_fuzzy_match_iff_partial : forall made desired ff fo,
   (matches (lin_json_rt made) desired ff fo = true <-> fuzzy_spec made desired ff fo).
 Proof. exact fuzzy_match_iff_partial. Qed.
 Print Assumptions C02_fuzzy_match_iff_partial.
+
+
+(* get_array = brand-new context on an empty directory, for all histories without fuzzy options:
+   full statement, for either variant of _context_hash *)
+Definition C02_full_get_equals_fresh (fx : bool) : Prop := full_get_equals_fresh fx.
+
+(* false for both variants: depends_on is not part of the lineage, so a same-named, same-version class
+   whose dependencies change within data types already in its lineage keeps the storage key while the
+   computation changes (storage-level stale read; known finding, replayed on the real Context) *)
+Theorem C02_get_equals_fresh_refuted : forall fx, ~ C02_full_get_equals_fresh fx.
+Proof. exact get_equals_fresh_refuted. Qed.
+Print Assumptions C02_get_equals_fresh_refuted.
+
+(* the statement under the hypothesis that excludes exactly this class (class name + version determine
+   the class including depends_on; child options tracked).  NOT proved: it needs "stored data is a
+   function of the lineage", which the model's data trees satisfy only under this hypothesis; it is
+   what the correspondence checks on every get of every generated history. *)
+Definition C02_full_get_equals_fresh_versioned (fx : bool) : Prop := full_get_equals_fresh_versioned fx.
